@@ -335,6 +335,30 @@ func randRR(r *mrand.Rand, zone string, small bool) dns.RR {
 	}
 }
 
+// the signer names: letters in both cases (every name holds an s or a k: the two ASCII letters some non-ASCII character folds
+// onto under Unicode case folding), a one-label name, a long one, and one with octets that are 0x20 away from another
+// printable octet without being letters ([ ] ^ and { } ~)
+var signers = []string{"key.example.", "KeY.Example.ORG.", "k.", "signer.with.a.rather.long.name.to.make.the.rdata.bigger.example.net.", "Sig[0]^k.example."}
+
+// what a SIG value may hold before Sign besides the five fields Sign reads (SignerName, KeyTag, Algorithm, Inception,
+// Expiration): the header filled in like that of any other record, the remaining RDATA fields.  Sign's result is a
+// function of the message and the five fields (spec: LayoutFault takes nothing else).
+var presetKinds = []string{"owner", "header", "rdata-fields", "all"}
+
+func applyPreset(sig *dns.SIG, kind, signer string) {
+	switch kind {
+	case "owner":
+		sig.Hdr.Name = "key.example."
+	case "header":
+		sig.Hdr = dns.RR_Header{Name: signer, Rrtype: dns.TypeSIG, Class: dns.ClassINET, Ttl: 3600, Rdlength: 77}
+	case "rdata-fields":
+		sig.TypeCovered, sig.Labels, sig.OrigTtl = dns.TypeSOA, 3, 86400
+	case "all":
+		sig.Hdr = dns.RR_Header{Name: "a.rather.long.owner.name.for.the.sig.record.example.net.", Rrtype: dns.TypeRRSIG, Class: dns.ClassCHAOS, Ttl: 1, Rdlength: 65535}
+		sig.TypeCovered, sig.Labels, sig.OrigTtl = dns.TypeANY, 255, 0xffffffff
+	}
+}
+
 type msgCase struct {
 	m      *dns.Msg
 	signer string
@@ -451,7 +475,7 @@ func randMsg(r *mrand.Rand, i int) msgCase {
 			m.Extra = append(m.Extra, randRR(r, zone, false))
 		}
 	}
-	signer := []string{"key.example.", "KeY.Example.ORG.", "k.", "signer.with.a.rather.long.name.to.make.the.rdata.bigger.example.net."}[r.Intn(4)]
+	signer := signers[r.Intn(len(signers))]
 	window := []int{0, 4, 0, 1, 0, 5, 2, 0, 6, 0, 3, 0, 1, 0}[i%14] // every kind within any 14 consecutive messages
 	return msgCase{m, signer, window}
 }
@@ -498,6 +522,7 @@ type evSign struct {
 	SigLen   int    `json:"siglen"`
 	Window   int    `json:"window"`
 	Reused   bool   `json:"reused"` // the SIG value had signed another message before
+	Preset   string `json:"preset"` // "" | what the SIG value held before Sign besides the five fields Sign reads (presetKinds)
 	Ok       bool   `json:"ok"`
 	ErrClass string `json:"errclass"`
 	Err      string `json:"err"`
@@ -576,7 +601,13 @@ func record(out, keysPath string, n int, algs []string, ar bool, only int) {
 				}
 				sig.Algorithm, sig.Inception, sig.Expiration, sig.KeyTag, sig.SignerName = k.rr.Algorithm, inc, exp, k.rr.KeyTag(), c.signer
 			}
-			e := evSign{Ev: "sign", Id: id, Msg: hx.FromBytes(packed), Compress: c.m.Compress, AlgName: a, Alg: int(k.rr.Algorithm), Reused: reused,
+			// every fourth random message: the SIG value arrives with its header / remaining RDATA fields filled in
+			preset := ""
+			if !(ar && i < nSpecial) && i%4 == 2 {
+				preset = presetKinds[(i/4)%len(presetKinds)]
+				applyPreset(sig, preset, c.signer)
+			}
+			e := evSign{Ev: "sign", Id: id, Msg: hx.FromBytes(packed), Compress: c.m.Compress, AlgName: a, Alg: int(k.rr.Algorithm), Reused: reused, Preset: preset,
 				Exp: be32(exp), Inc: be32(inc), KeyTag: int(sig.KeyTag), Signer: hx.FromString(c.signer), SigLen: sigLenOf(k), Window: c.window}
 			var res []byte
 			var serr error
@@ -639,6 +670,16 @@ type evVerify struct {
 	// the octets handed to Verify are the same after the call (for an "after-" event: after both calls)
 	Unchanged bool   `json:"unchanged"`
 	Err       string `json:"err"`
+	// the SIG value Verify was called on, when it is not the record unpacked from buf (a signing template that has signed
+	// another message since): the specification judges by the received octets alone
+	RR *sigStruct `json:"rr,omitempty"`
+}
+
+type sigStruct struct {
+	Inc    hx.B `json:"inc"`
+	Exp    hx.B `json:"exp"`
+	KeyTag int  `json:"keytag"`
+	Signer hx.B `json:"signer"`
 }
 
 // the receiver: unpack, take the last additional record as the SIG, verify.  err != nil = rejected.
@@ -688,6 +729,37 @@ func swapCase(s string) string {
 	return string(b)
 }
 
+// unicodeFold: the name with its first s / S replaced by U+017F LATIN SMALL LETTER LONG S, resp. its first k / K by
+// U+212A KELVIN SIGN, as raw UTF-8 in the Go string: another domain name (other octets, another length) that Unicode
+// case folding -- not the DNS's -- takes for the same.  "" when the name has no such letter.
+func unicodeFold(name string, letter byte) string {
+	repl := map[byte]string{'s': "\u017f", 'k': "\u212a"}[letter]
+	for i := 0; i < len(name); i++ {
+		if name[i] == '\\' {
+			i++
+			continue
+		}
+		if name[i]|0x20 == letter {
+			return name[:i] + repl + name[i+1:]
+		}
+	}
+	return ""
+}
+
+// xor20NonLetter: the name with its first octet among [ ] ^ { } ~ moved by 0x20 (another name: only letters have two cases)
+func xor20NonLetter(name string) string {
+	for i := 0; i < len(name); i++ {
+		if name[i] == '\\' {
+			i++
+			continue
+		}
+		if strings.IndexByte("[]^{}~", name[i]) >= 0 {
+			return name[:i] + string(name[i]^0x20) + name[i+1:]
+		}
+	}
+	return ""
+}
+
 func withPublic(k *dns.KEY, pub []byte) *dns.KEY {
 	c := *k
 	c.PublicKey = base64.StdEncoding.EncodeToString(pub)
@@ -697,6 +769,29 @@ func withPublic(k *dns.KEY, pub []byte) *dns.KEY {
 func withOwner(k *dns.KEY, owner string) *dns.KEY {
 	c := *k
 	c.Hdr.Name = owner
+	return &c
+}
+
+// template: the SIG value of a signer who has, after the message under test, signed another message with the same key and
+// signer name but validity window `kind' (real Sign, so that the value carries that message's header fields and signature).
+// What Sign says about that other message is not this function's business (it is judged where it is the subject).
+var templates = map[string]*dns.SIG{}
+
+func template(e *evSign, k key, signer string, kind int, now int64) *dns.SIG {
+	ck := fmt.Sprintf("%s|%s|%d", e.AlgName, signer, kind)
+	if t := templates[ck]; t != nil {
+		c := *t
+		return &c
+	}
+	inc, exp := window(kind, now)
+	t := &dns.SIG{RRSIG: dns.RRSIG{Algorithm: k.rr.Algorithm, Inception: inc, Expiration: exp, KeyTag: uint16(e.KeyTag), SignerName: signer}}
+	later := new(dns.Msg)
+	later.SetQuestion("later.message.example.", dns.TypeSOA)
+	hx.Catch(func() { t.Sign(k.priv, later) })
+	// the five fields a caller sets are what he set, whatever Sign did
+	t.Algorithm, t.Inception, t.Expiration, t.KeyTag, t.SignerName = k.rr.Algorithm, inc, exp, uint16(e.KeyTag), signer
+	templates[ck] = t
+	c := *t
 	return &c
 }
 
@@ -753,13 +848,28 @@ func finish(eventsPath, emitPath, keysPath, verifyPath string) {
 				name string
 				k    *dns.KEY
 				pub  crypto.PublicKey // nil: the KEY record does not hold a public key of its algorithm
+				rr   *dns.SIG         // non-nil: Verify is called on THIS value (not on the SIG unpacked from the octets)
 			}
-			vs := []variant{{"same", keyrr, k0.priv.Public()},
-				{"owner-case", withOwner(k0.rr, swapCase(signer)), k0.priv.Public()}}
+			vs := []variant{{"same", keyrr, k0.priv.Public(), nil},
+				{"owner-case", withOwner(k0.rr, swapCase(signer)), k0.priv.Public(), nil}}
+			// Verify called on a SIG value that is not the record in the message: the signing template, which has signed
+			// another message -- with another validity window -- since (a sign / re-window / sign / verify sequence).  One
+			// template whose own window holds and one whose window does not (expired, not yet valid, inverted in turn);
+			// the verdict is that of the received octets.  Messages of 2.5 .. 4 kB (the ~3 kB one, signed with every algorithm):
+			// on the real one only, the template whose window does not hold; not on longer ones (each costs trace validation
+			// seconds, and the length of the message has no part in this).
+			if len(buf) <= 2500 || names[bi] == "real" && len(buf) <= 4000 {
+				for _, wk := range []int{[]int{2, 3, 6}[(e.Id+bi)%3], 0} {
+					vs = append(vs, variant{"struct-window-" + strconv.Itoa(wk), keyrr, k0.priv.Public(), template(e, k0, signer, wk, recNow)})
+					if len(buf) > 2500 {
+						break
+					}
+				}
+			}
 			if len(buf) > 2500 { // long messages: the accepting variants, and on the real one a wrong and a damaged key
 				if names[bi] == "real" {
 					pk, _ := base64.StdEncoding.DecodeString(k0.rr.PublicKey)
-					vs = append(vs, variant{"key-other", withOwner(k1.rr, signer), k1.priv.Public()}, variant{"key-short", withPublic(keyrr, pk[:len(pk)-1]), nil})
+					vs = append(vs, variant{"key-other", withOwner(k1.rr, signer), k1.priv.Public(), nil}, variant{"key-short", withPublic(keyrr, pk[:len(pk)-1]), nil, nil})
 				} else {
 					vs = vs[:1]
 				}
@@ -782,28 +892,43 @@ func finish(eventsPath, emitPath, keysPath, verifyPath string) {
 						collideFirst[ck] = len(collideFirst)%2 == 1
 					}
 					if collideFirst[ck] {
-						vs = append([]variant{{"key-collide", cb, cpub}}, vs...)
+						vs = append([]variant{{"key-collide", cb, cpub, nil}}, vs...)
 					} else {
-						vs = append(vs, variant{"key-collide", cb, cpub})
+						vs = append(vs, variant{"key-collide", cb, cpub, nil})
 					}
 				}
 				vs = append(vs,
-					variant{"owner-other", withOwner(k0.rr, "other."+signer), k0.priv.Public()},
-					variant{"owner-parent", withOwner(k0.rr, "example."), k0.priv.Public()},
-					variant{"key-other", withOwner(k1.rr, signer), k1.priv.Public()},
-					variant{"key-other-alg", withOwner(other.rr, signer), other.priv.Public()},
+					variant{"owner-other", withOwner(k0.rr, "other."+signer), k0.priv.Public(), nil},
+					variant{"owner-parent", withOwner(k0.rr, "example."), k0.priv.Public(), nil},
+					variant{"key-other", withOwner(k1.rr, signer), k1.priv.Public(), nil},
+					variant{"key-other-alg", withOwner(other.rr, signer), other.priv.Public(), nil},
 					// the signer's key damaged: one octet short, one octet long, empty, the length of another algorithm
-					variant{"key-short", withPublic(keyrr, pk[:len(pk)-1]), nil},
-					variant{"key-long", withPublic(keyrr, append(append([]byte{}, pk...), 1)), nil},
-					variant{"key-empty", withPublic(keyrr, nil), nil},
-					variant{"key-otherlen", withPublic(keyrr, ol), nil})
+					variant{"key-short", withPublic(keyrr, pk[:len(pk)-1]), nil, nil},
+					variant{"key-long", withPublic(keyrr, append(append([]byte{}, pk...), 1)), nil, nil},
+					variant{"key-empty", withPublic(keyrr, nil), nil, nil},
+					variant{"key-otherlen", withPublic(keyrr, ol), nil, nil})
+				// KEY owners that are other domain names although some notion of "the same letters" other than the DNS's
+				// (RFC 4343: the 26 ASCII letter pairs, nothing else) takes them for the signer's name: the two non-ASCII
+				// characters Unicode folds onto s and k, spelled raw in the Go string; a non-letter moved by 0x20
+				for _, o := range []struct{ tag, name string }{{"owner-unicode-fold-s", unicodeFold(signer, 's')}, {"owner-unicode-fold-k", unicodeFold(signer, 'k')},
+					{"owner-unicode-fold-k-case", unicodeFold(swapCase(signer), 'k')}, {"owner-xor20-nonletter", xor20NonLetter(signer)}} {
+					if o.name != "" {
+						vs = append(vs, variant{o.tag, withOwner(k0.rr, o.name), k0.priv.Public(), nil})
+					}
+				}
 			}
 			rightValid := stdVerify(k0.priv.Public(), em.Hash, signed.Bytes(), buf[em.SigOff:])
 			for _, v := range vs {
 				sum.Evaluations++
 				now := time.Now().Unix()
 				b := append([]byte(nil), buf...) // the caller's buffer: used for this call and, if it fails, for the next one
-				err, pan := receive(v.k, b)
+				var err error
+				var pan string
+				if v.rr != nil {
+					err, pan = direct(v.rr, v.k, b)
+				} else {
+					err, pan = receive(v.k, b)
+				}
 				if pan != "" {
 					sum.Mis("sig0/verify-panics:"+v.name, "panic: "+pan, map[string]interface{}{"id": e.Id, "variant": v.name})
 					continue
@@ -813,8 +938,11 @@ func finish(eventsPath, emitPath, keysPath, verifyPath string) {
 				if err != nil {
 					ev.Err = err.Error()
 				}
+				if v.rr != nil {
+					ev.RR = &sigStruct{Inc: be32(v.rr.Inception), Exp: be32(v.rr.Expiration), KeyTag: int(v.rr.KeyTag), Signer: hx.FromString(v.rr.SignerName)}
+				}
 				w.Emit(ev)
-				if err == nil || len(buf) > 1000 && v.name != "key-other" {
+				if err == nil || len(buf) > 1000 && v.name != "key-other" || v.rr != nil || strings.HasPrefix(v.name, "owner-unicode") || strings.HasPrefix(v.name, "owner-xor20") {
 					continue
 				}
 				// a failed verification, then the matching KEY on the very same buffer: Verify is a function of the
